@@ -376,7 +376,13 @@ class NetworkGraph(AbstractBaseIR):
                     data[source][key].extend(val)
                 except AttributeError:
                     field = data[source][key]
-                    if type(field) is str or field is None:
+                    if key == 'weight' and isinstance(field, np.ndarray) and isinstance(val, np.ndarray) and \
+                            field.shape == val.shape and edge.get('edge_ir') is None and \
+                            data[source].get('edge_ir') is None:
+                        # parallel plain connections (weight matrices or global scalar weights) between the same two
+                        # variables add up
+                        data[source][key] = field + val
+                    elif type(field) is str or field is None:
                         pass
                     else:
                         data[source][key] = [field, val]
